@@ -63,6 +63,7 @@ package escape
 //@   ensures status_grew: statusGrew(g)
 //@   ensures edges_kept: edgesKept(g)
 //@   ensures others_unchanged: forall m *Node :: old(has(g.status, m)) ==> g.status[m] == old(g.status[m])
+//@   ensures edge_maps_kept: forall m *Node :: old(has(g.edges, m)) ==> has(g.edges, m) && g.edges[m] == old(g.edges[m])
 //@   ensures wf: wfGraph(g)
 //@   modifies map(*Node;EscapeStatus), map(*Node;map[*Node]edgeFlags), map(*Node;*dataflow.EscapeRationale)
 
@@ -92,6 +93,19 @@ package escape
 //@   loop node invariant pending{pending,pending2,cur}: forall x *Node, y *Node :: edge(g, x, y) && (old(g.status[y] >= g.status[x]) || (x == a && y == b)) ==> g.status[y] >= g.status[x] || inWL(worklist, x)
 //@   loop succ invariant pending2{pending,pending2,cur}: forall x *Node, y *Node :: edge(g, x, y) && (old(g.status[y] >= g.status[x]) || (x == a && y == b)) ==> g.status[y] >= g.status[x] || inWL(worklist, x) || (x == node && !visited(succ, y))
 //@   loop succ invariant cur{cur}: g.status[node] == nodeStatus
+
+// AddEdge adds the edge src->dest (adding both nodes if needed) and re-closes the
+// graph along it: afterwards dest is at least as escaped as src, no status was
+// lowered, no node or edge was removed, and every edge that existed and was closed
+// before is still closed.
+//@ func EscapeGraph.AddEdge
+//@   property C15
+//@   requires wfGraph(g) && src != nil && dest != nil
+//@   ensures edge_added: has(g.edges, src) && has(g.edges[src], dest)
+//@   ensures closed_edge: g.status[dest] >= g.status[src]
+//@   ensures status_grew: statusGrew(g)
+//@   ensures edges_kept: edgesKept(g)
+//@   ensures closure_kept: forall x *Node, y *Node :: old(edge(g, x, y) && g.status[y] >= g.status[x]) ==> g.status[y] >= g.status[x]
 
 // MergeNodeStatus raises the status of n to at least s and never lowers any status.
 //@ func EscapeGraph.MergeNodeStatus
